@@ -42,7 +42,7 @@ Eff(schema, m) == CASE schema = "main" -> (IF HasNoneKey(m) THEN "s1" ELSE "main
                     [] OTHER -> schema
 
 \* ------------------------------------------------------------------ grammar
-Kinds == {"sel", "orm", "ins", "upd", "del", "lam", "ddl", "txt", "typ"}
+Kinds == {"sel", "orm", "ins", "upd", "del", "lam", "ddl", "txt", "typ", "insm"}
 Froms == {"a", "join", "outer", "s1", "xjoin"}
 Crits == {"none", "eq", "in", "eqand", "orin"}
 \* lchain3 / lchain4: lambda_stmt(l1) + l2 + l3 [+ l4] where ONLY the first link holds a structural closure value (the column), the later
@@ -60,6 +60,10 @@ SelShapes == {s \in [k : {"sel"}, f : Froms, c : Crits, w : Wraps, d : Decos, o 
                  (s.w = "union" => s.d \in {"none", "limit"}) /\ (s.w = "exists" => s.f \in {"a", "join", "outer"})}
 OrmShapes == [k : {"orm"}, f : {"a", "join", "outer"}, c : Crits, w : {"none", "exists"}, d : {"none", "limit", "distinct"},
               o : {"none", "selectin", "joined", "defer", "undefer"}]        \* (undefer(A.y) differs from defer(A.y) in the loader STRATEGY only)
+\* executemany INSERT .. RETURNING on the "insertmanyvalues" path whose VALUES holds a scalar subquery against the OTHER table:
+\*   insert(dst).values(y = select(max(src.c.id)).scalar_subquery()).returning(dst.c.id, dst.c.y)   executed with two parameter sets {x: n}, {x: b};
+\* f = the schema dst is declared in (src is declared in the other one), so a map translates the statement text AND the per-row VALUES fragment
+InsmShapes == [k : {"insm"}, f : {"a", "s1"}, c : {"none"}, w : {"none"}, d : {"none"}, o : {"ret"}]
 InsShapes == [k : {"ins"}, f : {"a", "s1"}, c : {"none"}, w : {"none"}, d : {"none"}, o : {"none", "ret"}]
 UpdDelShapes == [k : {"upd", "del"}, f : {"a", "s1"}, c : Crits, w : {"none"}, d : {"none"}, o : {"none", "ret"}]
 LamShapes == [k : {"lam"}, f : {"a"}, c : LamKinds, w : {"none"}, d : {"none"}, o : {"none"}]
@@ -70,14 +74,15 @@ DdlShapes == [k : {"ddl"}, f : {"a", "s1"}, c : {"none"}, w : {"none"}, d : {"no
 TxtShapes == [k : {"txt"}, f : {"a"}, c : {"none", "eq"}, w : {"none"}, d : {"none"}, o : {"named", "pos"}]
 \* select(a.c.id, cast(a.c.x, T) | type_coerce(a.c.x, T) | literal(n, T)).where(a.c.y == :b)  /  select(a.c.id, a.c.x).where(a.c.y == bindparam(b, T))
 TypShapes == [k : {"typ"}, f : {"a"}, c : TypC, w : {"none"}, d : {"none"}, o : TypO]
-Shapes == SelShapes \cup OrmShapes \cup InsShapes \cup UpdDelShapes \cup LamShapes \cup DdlShapes \cup TxtShapes \cup TypShapes
+Shapes == SelShapes \cup OrmShapes \cup InsShapes \cup UpdDelShapes \cup LamShapes \cup DdlShapes \cup TxtShapes \cup TypShapes \cup InsmShapes
 WF(s) == s \in Shapes
 Name(s) == s.k \o "|" \o s.f \o "|" \o s.c \o "|" \o s.w \o "|" \o s.d \o "|" \o s.o
 \* shapes that may be executed under a schema map: Core statements over a / s1.a only (b exists only unqualified)
-SchemaCapable(s) == s.k \in {"sel", "ins", "upd", "del", "ddl"} /\ s.f \in {"a", "s1", "xjoin"} /\ s.w # "exists"
+SchemaCapable(s) == s.k \in {"sel", "ins", "upd", "del", "ddl", "insm"} /\ s.f \in {"a", "s1", "xjoin"} /\ s.w # "exists"
 \* two different tables must not be translated onto the same one (the "same construct with translated names" would not exist)
-MapOK(s, m) == m = "none" \/ (SchemaCapable(s) /\ (s.f = "xjoin" => Eff("main", m) # Eff("s1", m)))
-UsesNoneSchema(s) == s.f # "s1"          \* the statement mentions a table declared without schema
+MapOK(s, m) == m = "none" \/ (SchemaCapable(s) /\ ((s.f = "xjoin" \/ s.k = "insm") => Eff("main", m) # Eff("s1", m)))
+UsesNoneSchema(s) == s.f # "s1" \/ s.k = "insm"          \* the statement mentions a table declared without schema
+UsesS1Schema(s) == s.f \in {"s1", "xjoin"} \/ s.k = "insm"  \* ... a table declared in schema s1
 Primary(s) == IF s.f = "s1" THEN "s1" ELSE "main"
 
 \* ------------------------------------------------------------------ helpers
@@ -140,11 +145,14 @@ Ids(s, v, m) ==
    CASE s.k \in {"sel", "orm", "lam", "txt", "typ"} -> Shift(SelIds(s, v), off)
      [] s.k = "ddl" -> <<off>>                                     \* observable of CREATE TABLE: the file in which table d exists afterwards
      [] s.k = "ins" -> IF s.o = "ret" THEN <<NRows + 1 + off>> ELSE <<>>
+     [] s.k = "insm" -> <<NRows + 1 + off, NRows + 2 + off>>            \* two rows inserted into dst
      [] OTHER -> IF s.o = "ret" THEN Shift(Matching(s, v), off) ELSE <<>>
 \* second column of the cross-schema join: ids of the partner rows (from the s1-declared table)
-HasIds2(s) == s.k = "sel" /\ s.f = "xjoin" /\ s.w = "none" /\ s.d # "limit"
+HasIds2(s) == (s.k = "sel" /\ s.f = "xjoin" /\ s.w = "none" /\ s.d # "limit") \/ s.k = "insm"
 Ids2(s, v, m) ==
-   IF HasIds2(s)
+   IF s.k = "insm"      \* second RETURNING column: the value the scalar subquery read = max(id) of the file src is translated to
+   THEN LET mx == NRows + Off(Eff(IF s.f = "s1" THEN "main" ELSE "s1", m)) IN <<mx, mx>>
+   ELSE IF HasIds2(s)
    THEN LET q == Bag([j \in 1..NRows |-> Card({i \in 1..NRows : Sat(s, v, i) /\ X[i] # 0 /\ X[i] = X[j]})], 1)
         IN Shift(q, Off(Eff("s1", m)))
    ELSE <<>>
@@ -171,6 +179,7 @@ CritB(s, v) == CASE Dev(s, v) -> IF s.c \in {"lmulti", "lchain3"} THEN <<NullBin
 LimitB(s, v) == IF HasLimit(s) THEN <<v.n, 0>> ELSE <<>>       \* SQLite renders LIMIT ? OFFSET ? with a generated 0
 Binds(s, v) ==
    CASE s.k = "ins" -> <<v.a, v.b>>                               \* VALUES (?, ?): None stays a bound NULL (0)
+     [] s.k = "insm" -> <<v.n, v.b>>                              \* VALUES (?, (SELECT ..)), (?, (SELECT ..)): one x per parameter set
      [] s.k = "ddl" -> <<>>
      [] s.k = "upd" -> <<v.b>> \o CritB(s, v)                     \* SET y=? WHERE ...
      [] s.k = "del" -> CritB(s, v)
@@ -194,6 +203,7 @@ CritX(s, v) == CASE Dev(s, v) -> IF s.c \in {"lmulti", "lchain3"} THEN << <<Null
                  [] s.c \in {"cast", "tcoerce", "bind"} -> << <<v.b>> >>
 Extract(s, v) ==
    CASE s.k = "ins" -> << <<v.a>>, <<v.b>> >>
+     [] s.k = "insm" -> << <<v.n>>, <<v.b>> >>                     \* (the parameter sets of the executemany call)
      [] s.k = "ddl" -> <<>>
      [] s.k = "upd" -> CritX(s, v) \o << <<v.b>> >>                \* Update._traverse_internals: _where_criteria before _values
      [] s.k = "del" -> CritX(s, v)
@@ -205,7 +215,7 @@ NCrit(s, st) == CASE s.c = "none" -> 0 [] s.c \in {"eqand", "orin", "lmulti", "l
                   [] s.c = "lchain4" -> NEq(s, st) + 2 [] s.c \in {"cast", "tcoerce", "bind"} -> 1
                   [] s.c \in {"in", "llist"} -> 1 [] OTHER -> NEq(s, st)
 Order(s, st) ==
-   CASE s.k = "ins" -> <<1, 2>>
+   CASE s.k \in {"ins", "insm"} -> <<1, 2>>
      [] s.k = "ddl" -> <<>>
      [] s.k = "upd" -> <<NCrit(s, st) + 1>> \o [i \in 1..NCrit(s, st) |-> i]
      [] s.k = "del" -> [i \in 1..NCrit(s, st) |-> i]
@@ -222,7 +232,7 @@ Secondary(s, v) == IF s.k = "orm" /\ s.o = "selectin" /\ SelIds(s, v) # <<>> THE
 \* sql: executions with equal `sql` must emit the same SQL text
 SqlClass(s, v, m) == [sh |-> Name(s), st |-> Struct(s, v), lk |-> LamKey(s, v), n |-> InLen(s, v),
                       e0 |-> IF UsesNoneSchema(s) /\ ~(s.c = "ltab" /\ v.tab # "a") THEN Eff("main", m) ELSE "-",
-                      e1 |-> IF s.f \in {"s1", "xjoin"} THEN Eff("s1", m) ELSE IF s.c = "ltab" /\ v.tab # "a" THEN v.tab ELSE "-"]
+                      e1 |-> IF UsesS1Schema(s) THEN Eff("s1", m) ELSE IF s.c = "ltab" /\ v.tab # "a" THEN v.tab ELSE "-"]
 \* looking up a row value by the column object given to the statement (C02: part of what "the same result rows" means)
 RowLookup(s, v) == IF s.k # "txt" \/ SelIds(s, v) = <<>> THEN "-" ELSE IF s.o = "pos" THEN "ok" ELSE "NoSuchColumnError"
 \* class of the values in the second column after the type's result processing (SQLite: no native decimal; "decN" = Decimal with N places)
